@@ -21,7 +21,7 @@ func init() {
 			"Then BackPropagate(y*G) with random non-uniform G: gradients of W, B and a tracked input against dW[o] = sum_b g[b][o] sum_d x[b][d], dB[o] = sum_b g[b][o], dx[b][d] = sum_o g[b][o] W[o], with the parameters' shapes. For batch > 1 W and B are expanded over the batch: a mismatch is attributed to the recorded finding only if every gradient equals the reference with BroadcastRule=Avg; batch 1 must be exact. Default initializers: Weight within +-sqrt(6/(in+out)), Bias zero, both tracked. " +
 			"Non-trivial: W and B non-uniform and (batch > 1 or outputs > 1); distinct = (batch, features, outputs, pointer discipline, number of replacements, tracked input).",
 		Assumptions: []string{"forward values compared within 1e-12 relative (+1e-12 absolute x magnitude of the summed terms)"},
-		FloorQuick:  600, FloorThor: 3000,
+		FloorQuick:  1500, FloorThor: 5000,
 		Run: runC16,
 	})
 }
@@ -34,14 +34,14 @@ func runC16(c *fw.Ctx) {
 	for B := 1; B <= 6; B++ {
 		for D := 1; D <= 6; D++ {
 			for O := 1; O <= 6; O++ {
-				for rep := 0; rep < c.Pick(4, 40); rep++ {
+				for rep := 0; rep < c.Pick(15, 300); rep++ {
 					B, D, O := B, D, O
 					c.Case(func(k *fw.K) { c16History(k, B, D, O) })
 				}
 			}
 		}
 	}
-	for i := 0; i < c.Pick(200, 2000); i++ {
+	for i := 0; i < c.Pick(500, 5000); i++ {
 		c.Case(func(k *fw.K) { c16Defaults(k) })
 	}
 }
